@@ -787,6 +787,25 @@ impl PublicKey {
             })
         })?;
 
+        // Ed25519 and ECDSA keys only work with their own scheme; a key
+        // carrying another one could be written to metadata but never be
+        // read back (the metadata parser makes the same check)
+        match (&typ, &scheme) {
+            (KeyType::Ed25519, s) if *s != SignatureScheme::Ed25519 => {
+                return Err(Error::IllegalArgument(format!(
+                    "Cannot use signature scheme {:?} with Ed25519 keys",
+                    s
+                )))
+            }
+            (KeyType::Ecdsa, s) if *s != SignatureScheme::EcdsaP256Sha256 => {
+                return Err(Error::IllegalArgument(format!(
+                    "Cannot use signature scheme {:?} with ECDSA keys",
+                    s
+                )))
+            }
+            _ => {}
+        }
+
         Self::new(typ, scheme, keyid_hash_algorithms, value)
     }
 
